@@ -72,14 +72,17 @@ class Value(SubCheck):
             amounts = AMOUNTS + AMOUNTS_T
             ppis = [96, 72, 300, None, 1, 25.4, 254, 1200, 90.5]
         self.p = Product(amounts, ls.UNITS, ppis, RELS, [False, True, "len"],
-                         [None, "0 0 200 100", "0 0 100 200"])
+                         [None, "0 0 200 100", "0 0 100 200"],
+                         # how the viewport is handed over: its text, a Viewbox object, a dict of attributes, or a
+                         # Viewbox object that had another size (and was used at that size) before
+                         ["str", "obj", "dict", "obj-resized"])
 
     def size(self):
         return len(self.p)
 
     def case(self, i):
-        a, u, ppi, rel, font, vb = self.p[i]
-        return dict(amount=a, unit=u, ppi=ppi, rel=list(rel) if rel else None, font=font, viewbox=vb)
+        a, u, ppi, rel, font, vb, form = self.p[i]
+        return dict(amount=a, unit=u, ppi=ppi, rel=list(rel) if rel else None, font=font, viewbox=vb, vbform=form)
 
     def expected(self, case, in_per_cm=ls.EXACT_IN_PER_CM):
         ctx = make_ctx(case["ppi"], tuple(case["rel"]) if case["rel"] else None, case["font"], case["viewbox"], in_per_cm)
@@ -107,8 +110,25 @@ class Value(SubCheck):
         elif case["font"]:
             kw["font_size"] = 16
             kw["font_height"] = 8
+        form = case.get("vbform", "str")
+        if case["viewbox"] is None and form != "str":
+            return out      # no viewport: nothing to hand over
         if case["viewbox"] is not None:
-            kw["viewbox"] = case["viewbox"]
+            if form == "str":
+                kw["viewbox"] = case["viewbox"]
+            elif form == "obj":
+                kw["viewbox"] = svg.Viewbox(case["viewbox"])
+            elif form == "dict":
+                kw["viewbox"] = {"viewBox": case["viewbox"]}
+            else:
+                vbo = svg.Viewbox("0 0 640 480")
+                try:
+                    svg.Length("1vw").value(viewbox=vbo)
+                    svg.Length("1vmin").value(viewbox=vbo)
+                except Exception:  # noqa
+                    pass
+                vbo.set_viewbox(case["viewbox"])
+                kw["viewbox"] = vbo
         exp = self.expected(case)
         tags = dict(unit=case["unit"], kind="value")
         try:
@@ -128,7 +148,7 @@ class Value(SubCheck):
                 out.fail("Length(%r).value(%r) must stay symbolic (information insufficient)" % (str(L), kw), "Length",
                          got, **tags)
         else:
-            out.nontrivial.append((case["unit"], case["amount"], case["ppi"], str(case["rel"]), case["font"], case["viewbox"]))
+            out.nontrivial.append((case["unit"], case["amount"], case["ppi"], str(case["rel"]), case["font"], case["viewbox"], form))
             if isinstance(got, svg.Length) and exp == 0 and got.amount == 0:
                 pass        # a symbolic zero is as right as the number 0
             elif isinstance(got, svg.Length):
